@@ -21,6 +21,8 @@ def norm(v, bits, signed):
 
 
 class Violation:
+    choices = ()
+
     def __init__(self, tag, kind, vector, decisions, detail=''):
         self.tag = tag
         self.kind = kind  # 'assert' | 'panic'
@@ -30,7 +32,7 @@ class Violation:
 
     def to_json(self):
         return {'tag': self.tag, 'kind': self.kind, 'vector': self.vector, 'decisions': self.decisions,
-                'detail': self.detail}
+                'detail': self.detail, 'choices': list(self.choices)}
 
 
 class Stats:
@@ -283,10 +285,33 @@ class Engine:
             return z3.Bool(nm)
         return z3.BitVec(nm, bits)
 
+    concrete_vector = None
+
     def add_nondet(self, kind, bits):
+        if self.concrete_vector is not None:
+            i = len(self.nondets)
+            x = self.concrete_vector[i] if i < len(self.concrete_vector) else 0
+            v = bool(x) if kind == 'bool' else int(x) & ((1 << bits) - 1)
+            self.nondets.append(v)
+            return v
         v = self.fresh(kind, bits, 'nd%d' % len(self.nondets))
         self.nondets.append(v)
         return v
+
+    def run_concrete(self, fname, args, vector, choices=()):
+        """re-execute one path with every nondeterministic value fixed (confirmation of a counterexample
+        for harnesses that cannot be replayed natively); returns (failed assertion tags, panic kind or None)"""
+        self.concrete_vector = list(vector)
+        self.concrete_choices = list(choices)
+        self.concrete_failures = []
+        nv = len(self.violations)
+        try:
+            out = self.run_path(self.prog.funcs[fname], args, [])
+        finally:
+            self.concrete_vector = None
+        new = self.violations[nv:]
+        del self.violations[nv:]
+        return [v.tag for v in new], out
 
     def check(self, *assumptions):
         t0 = time.time()
@@ -426,8 +451,16 @@ class Engine:
 
     def choose(self, n):
         """n-way nondeterministic choice without constraint; returns index"""
+        d = self._choose(n)
+        self.choice_trail.append(d)
+        return d
+
+    def _choose(self, n):
         if n <= 0:
             raise PathAbort('empty choice')
+        if self.concrete_vector is not None:
+            d = self.concrete_choices.pop(0) if self.concrete_choices else 0
+            return d if d < n else 0
         if self.pos < len(self.prefix):
             d = self.prefix[self.pos]
             self.pos += 1
@@ -536,7 +569,9 @@ class Engine:
                 return False
             model = self.model()
         vec = self.model_vector(model)
-        self.violations.append(Violation(tag, kind, vec, list(self.trail), detail))
+        v = Violation(tag, kind, vec, list(self.trail), detail)
+        v.choices = list(self.choice_trail)
+        self.violations.append(v)
         return True
 
     def oneshot(self, extra):
@@ -615,9 +650,14 @@ class Engine:
         self.spawned = []
         self.path_instrs = 0
         self.callstack = []
+        self.choice_trail = []
         self.clock_last = None
+        self.clock_count = 0
         self.path_notes = []
         self.fits = {}
+        self.ctx_children = {}
+        self.timer_log = []
+        self.chan_hooks = {}
         self.epoch += 1
         outcome = 'ok'
         self.path_obs = []
@@ -732,11 +772,11 @@ class Engine:
 
     special_invoke = {}
 
-    def call(self, fn, args, binds=()):
+    def call(self, fn, args, binds=(), raw=False):
         name = fn.name
-        it = self.intrinsics.get(name)
-        if it is None and fn.short.startswith('verif'):
-            it = self.intrinsics.get('@' + fn.short)
+        it = None if raw else self.intrinsics.get(name)
+        if it is None and not raw and fn.short.startswith('verif'):
+            it = self.intrinsics.get('@' + fn.short.split('[', 1)[0])
         if it is not None:
             return it(self, args)
         if not fn.hasbody:
@@ -1501,6 +1541,9 @@ class Engine:
         self.chan_touch(ch)
         ch.items.append(v)
         ch.sent += 1
+        hook = self.chan_hooks.get(id(ch))
+        if hook is not None:
+            self.call_value(hook, [v])
 
     def chan_recv(self, ch, commaok, elem_t):
         if ch is None:
